@@ -260,7 +260,11 @@ def make_body(sched: Sched, tid: int, ep: Dict[str, Any]):
 
         api = ep.get("api", "plain")
         running: List[str] = []
+        api0 = ep.get("api", "plain")
         for n, (op, arg) in enumerate(ep["script"]):
+            # "send:structured" etc.: this one operation goes through another public entry point of the same socket
+            op, _, over = op.partition(":")
+            api = over or api0
             sched.log(t=tid, ev="call", op=op, arg=arg, n=n)
             res: Any = "ok"
             try:
